@@ -1,7 +1,7 @@
 #!/bin/bash
 # usage: tools/run_all.sh [tier] [seed]  - runs every registered check, prints one line each
 TIER="${1:-quick}"; export VERIF_SEED="${2:-0}"
-cd /verif
+cd "$(dirname "$0")/.."
 for id in $(python3 -c "import json;print(' '.join(c['property_id'] for c in json.load(open('MANIFEST.json'))['checks']))"); do
   s=$(date +%s.%N)
   out=$(./run.sh $id $TIER 2>&1); rc=$?
